@@ -1,6 +1,7 @@
 (* Extraction of the hand-written executable model (ExtrOcamlBasic only). *)
 From Coq Require Import ZArith List Extraction ExtrOcamlBasic.
-From C14 Require PropagationModel Model Bodies Crew.
+From MomoCommon Require GenPrelude.
+From C14 Require PropagationModel Model Bodies Crew Gen_TreeSet Gen_HashSet Gen_HashMultiMap Gen_DataTable.
 Separate Extraction
   PropagationModel.mkTraits PropagationModel.proxy_assign PropagationModel.native_proxy_assign
   PropagationModel.code_target_alloc PropagationModel.code_elementwise PropagationModel.std_target_alloc
@@ -16,4 +17,5 @@ Separate Extraction
   Bodies.s_copy Bodies.s_move_ctor Bodies.s_swap Bodies.abs Bodies.sb_items
   Bodies.s_elementwise_body Bodies.s_copy_table Bodies.idx_shape Bodies.tree_shape
   Crew.iset_new Crew.iset_move_ctor Crew.iset_swap Crew.iset_copy_ctor Crew.iset_move_assign Crew.iset_copy_assign
-  Crew.iset_find Crew.iset_insert Crew.coherent.
+  Crew.iset_find Crew.iset_insert Crew.coherent
+  Gen_TreeSet.Clear Gen_TreeSet.pvDestroy Gen_HashSet.Clear Gen_HashMultiMap.Clear Gen_DataTable.Clear.
